@@ -774,8 +774,10 @@ def _find_or_make(kind, nterms, bslots, mslots, sym, extra=None):
             for mo in morders:
                 m = {info.bslots[i]: bslots[p] for i, p in enumerate(perm)}
                 m.update(dict(zip(info.mslots, mo)))
-                stored = [(c, n.rename(m)) for c, n in info.arg[1]]
                 fr = set(bslots) | set(mslots)
+                stored = [(c, n.rename(m)) for c, n in info.arg[1]]
+                if any(h == "delta" for _, n in stored for h, _ in n.f):
+                    stored = normalize_terms(stored, fr)
                 if terms_equal(stored, nterms, fr):
                     return hid, tuple(bslots[p] for p in perm)
     hid = f"{kind}#{len(ST.head)}"
@@ -1107,6 +1109,15 @@ def simplify(coef, net, free):
                 break
             if changed:
                 break
+        if not changed:
+            # ---- delta between two free variables: the other factors may use either one; pick a canonical one
+            for k, (h, ix) in enumerate(f):
+                if h == "delta" and ix[0] != ix[1] and ix[0] in free and ix[1] in free:
+                    lo, hi = sorted(ix, key=lambda x: (len(x), x))
+                    if any(hi in jx for q, (hh, jx) in enumerate(f) if q != k):
+                        f = [(hh, (tuple(lo if x == hi else x for x in jx) if q != k else jx)) for q, (hh, jx) in enumerate(f)]
+                        changed = True
+                        break
         if not changed:
             break
     return coef, Net(f)
